@@ -588,6 +588,72 @@ func (h *hand) noise(k int) {
 	h.o.Count("engine.noise_calls")
 }
 
+// bystander: ANOTHER hand, at other stakes, alive in the same process and played a step at a time in between the operations of the
+// hand under test.  Two games share nothing: whatever the bystander does — publishing its pots, ranking its hands, closing — the
+// state of the hand under test is what it was (a pooled buffer, a memo keyed too coarsely or a package-level scratch value would
+// couple them).  Model: nothing changes.
+var bystander pokerface.Game
+
+func (h *hand) bystanderStep(r *Rng) {
+	if h.dead {
+		return
+	}
+	gs := h.g.GetState()
+	pre := copyState(gs)
+	_, pan := safely(func() error {
+		if bystander == nil || bystander.GetState().Status.CurrentEvent == "GameClosed" {
+			opts := pokerface.NewStardardGameOptions()
+			if r.Chance(0.5) {
+				opts = pokerface.NewShortDeckGameOptions()
+				opts.Deck = pokerface.NewShortDeckCards()
+			} else {
+				opts.Deck = pokerface.NewStandardDeckCards()
+			}
+			opts.Blind.SB, opts.Blind.BB = 100, 200
+			n := 2 + r.Intn(4)
+			for i := 0; i < n; i++ {
+				pos := []string{}
+				switch {
+				case i == 0 && n == 2:
+					pos = []string{"dealer", "sb"}
+				case i == 0:
+					pos = []string{"dealer"}
+				case i == 1 && n == 2:
+					pos = []string{"bb"}
+				case i == 1:
+					pos = []string{"sb"}
+				case i == 2:
+					pos = []string{"bb"}
+				}
+				opts.Players = append(opts.Players, &pokerface.PlayerSetting{Bankroll: int64(300 + r.Intn(3000)), Positions: pos})
+			}
+			bystander = pokerface.NewPokerFace().NewGame(opts)
+			if err := bystander.Start(); err != nil {
+				bystander = nil
+				return nil
+			}
+		}
+		for k := 0; k < 1+r.Intn(6) && bystander.GetState().Status.CurrentEvent != "GameClosed"; k++ {
+			op := expectedOp(r, bystander.GetState(), r.Chance(0.3))
+			op.seat = -1
+			wdLine.Store("bystander " + op.line())
+			applyOp(bystander, op)
+		}
+		return nil
+	})
+	if pan {
+		bystander = nil
+	}
+	h.o.Emit("query 9", gameStr("st", gs, "none"))
+	h.o.Count("engine.bystander_steps")
+	if !sameState(pre, gs) {
+		h.o.Violate("C01", "pots_total", "another hand played in the same process changed the state of this hand")
+		h.o.Violate("C07", "resume_state", "another hand played in the same process changed the state of this hand (same deck, same operations, another state)")
+		h.o.Violate("C16", "totals_sum", "another hand played in the same process changed the published pots / state of this hand")
+		h.o.Violate("C14", "cards_stable", "another hand played in the same process changed the state of this hand")
+	}
+}
+
 // query: the read-only queries of the Game interface (and of its players) called on the game under test: GetEvent, GetStateJSON,
 // Dealer / SmallBlind / BigBlind, GetPlayerCount, GetPlayers, GetCurrentPlayer, the two counters, the offered-action queries,
 // PrintState, PrintPots.  A query is not an operation of the hand: the state must be exactly what it was (the model's answer is
